@@ -356,7 +356,9 @@ def big_window_digits_anypos(ctx, gname, proj, aff, f, head, w, n=2):
 def pippenger(ctx):
     chk = ctx.chk
     tier = ctx.tier
-    plan = [(1, 2), (2, 3), (3, 2), (4, 2)] if tier == 'quick' else [(1, 3), (2, 3), (3, 3), (4, 3), (5, 2), (6, 2), (7, 2), (8, 2)]
+    # thorough = the quick plan with one more point per window and windows 5..8 as ladder rungs, at the class positions (wider sweeps --
+    # every position, then strides 4 / 8 / 16 -- never came to an end within 5, 3, 3, 1.2 and 0.6 hours on this machine; see DESIGN 11)
+    plan = [(1, 2), (2, 3), (3, 2), (4, 2)] if tier == 'quick' else [(1, 3), (2, 3), (3, 3), (4, 2), (5, 2), (6, 2), (7, 2), (8, 2)]
     for gname, proj, aff in ([('G1', 'ec::g1::G1', 'ec::g1::G1Affine')] + ([('G2', 'ec::g2::G2', 'ec::g2::G2Affine')])):
         D = models.GroupDomain(proj, aff).setup(1, proj, aff)
         ex = C.new_executor(ctx, D.models())
@@ -376,18 +378,16 @@ def pippenger(ctx):
             big_window_digits_anypos(ctx, gname, proj, aff, f, head, w)
         if ctx.only and 'anypos' in ctx.only and 'pip' not in ctx.only:
             continue
-        myplan = plan if gname == 'G1' else ([(3, 2)] if tier == 'quick' else [(2, 2), (4, 2), (6, 2)])
+        myplan = plan if gname == 'G1' else ([(3, 2)] if tier == 'quick' else [(2, 2), (3, 2), (4, 2)])
         for (w, n) in myplan:
             sched = scheds[w]
             ex.unroll_limit = max((1 << w) + 3, 40)
             # thorough: one position per control-flow class plus every 16th (windows 1, 2) resp. every 8th (windows 3, 4) position; classes only
             # above (sweeps over every position up to window 8, up to 4 and up to 2 were tried: no end after 5, 3 and 3 hours on this machine)
             pos_ = positions_for('quick', sched, w)
-            if tier == 'thorough' and w <= 4:
-                pos_ = sorted(set(pos_) | set(range(0, len(sched), 16 if w <= 2 else 8)))
             for pi in pos_:
                 nxt = sched[pi + 1] if pi + 1 < len(sched) else None
-                step(ex, f, head, proj, aff, w, n, sched[pi], nxt, chk, gname, optional=(w >= 7))       # windows 7, 8: ladder rungs (memory / time permitting)
+                step(ex, f, head, proj, aff, w, n, sched[pi], nxt, chk, gname, optional=(w >= 5))       # windows 7, 8: ladder rungs (memory / time permitting)
         # mismatched list lengths inside the bucket method (every digit-extraction branch): only the first min entries count, no panic
         if gname == 'G1':
             wm = 3
@@ -634,7 +634,7 @@ def run(ctx):
     if not only or 'native' in only:
         native_differential(ctx)
     chk.bounds.update({'bucket method (full step incl. reduction)': 'quick: windows 1..6 with n = 2 or 3 points at the first/last/word-straddling positions; '
-                       'thorough: windows 1..8 (n<=3 for w<=4, n=2 above), one position per control-flow class, plus every 16th position for w<=2 and every 8th for w=3,4',
+                       'thorough: windows 1..8 (n<=3 for w<=4, n=2 above), one position per control-flow class; windows 5..8 are ladder rungs',
                        'digit extraction + index safety': 'every window 1..=20 with a SYMBOLIC bit position 0..=255 (both tiers); thorough repeats it at one concrete position per control-flow class of every window',
                        'scalars': 'all values of the 4x64 limb bits with bit 255 clear', 'outside': 'bucket reduction for windows 9..=20 and n > 3'})
     chk.assumptions += ['curve operations act as an abelian group on exponent vectors over formal generators (C01); repeated / inverse / identity points are '
